@@ -1,5 +1,5 @@
 """Per-property stage tables (see DESIGN.md section 3)."""
-from driver import Stage
+from driver import Stage, tsan_post
 
 R = 'librfn/'
 UTIL = [R + 'util.c', R + 'posix/time_posix.c', R + 'string.c']
@@ -502,3 +502,48 @@ prop('C06',
      'accepted event is received exactly once intact and in order, and that the scheduler reaches a clean idle state.',
      level_note='Placements of more than two interrupts and other scenarios are sampled, not enumerated; real-thread '
      'delivery is covered under C07\'s workloads.')
+
+
+# ----------------------------------------------------------------------- C07
+RING = [R + 'ringbuf.c']
+TSAN_ENV = {'TSAN_OPTIONS': 'halt_on_error=0:exitcode=0:log_path={bdir}/tsan:report_thread_leaks=1:history_size=4'}
+THR_ALL = FIB + RING
+THR_SRC = {'ring': THR_ALL, 'mq': THR_ALL, 'fibre': THR_ALL}
+
+
+def thr_stage(name, mode, preset, cc='gcc', tiers=('quick', 'thorough'), nproc=2):
+    return Stage(name, ['harness/threads.c'], THR_SRC[mode], preset=preset, cc=cc, nproc=nproc, tiers=tiers,
+                 args={'quick': ['--extra', mode], 'thorough': ['--extra', mode]},
+                 env=TSAN_ENV if preset == 'tsan' else {}, post=tsan_post if preset == 'tsan' else None,
+                 timeout={'quick': 600, 'thorough': 3600},
+                 needs_min={'ring': {'ring_bytes_handed_over': 100000}, 'mq': {'mq_messages_handed_over': 10000},
+                            'fibre': {'fibre_events_handed_over': 5000}}[mode])
+
+
+prop('C07',
+     'real pthreads on the three supported patterns, tiny structures so that every hand-off path (wrap, full, empty, '
+     'refused claim) is taken thousands of times per run: SPSC ring (buf_len 2,3,4,5,7,17; put and putchar vs get and '
+     'empty; random start index), MPSC queue (depth 1-4, 2-15 sender threads, plain payload writes and reads), and 2-8 '
+     'threads posting fibre events and fibre_run_atomic wake-ups against the main-context scheduler loop (plain event '
+     'payload). Built with the genuine ThreadSanitizer (gcc; clang in the thorough tier); every report is a violation, '
+     'de-duplicated by the innermost librfn frames. Each round is one evaluation; rounds differ in interleaving, so '
+     'distinct = distinct (configuration, refusal-count) signatures observed; non-trivial = every round (all exercise '
+     'cross-thread hand-offs).',
+     [thr_stage('tsan-ring', 'ring', 'tsan'), thr_stage('tsan-mq', 'mq', 'tsan'), thr_stage('tsan-fibre', 'fibre', 'tsan'),
+      thr_stage('tsan-ring-clang', 'ring', 'tsan', cc='clang', tiers=('thorough',)),
+      thr_stage('tsan-mq-clang', 'mq', 'tsan', cc='clang', tiers=('thorough',)),
+      thr_stage('tsan-fibre-clang', 'fibre', 'tsan', cc='clang', tiers=('thorough',))],
+     assumptions=['ThreadSanitizer computes happens-before from the memory order of every atomic actually executed; it '
+                  'is the oracle, no monitor of ours second-guesses it',
+                  'the step from race freedom to "C04-C06 carry over to weak hardware" is the C11 DRF-SC theorem, not '
+                  'something observed',
+                  'the harness adds no synchronisation between the parties (plain payload accesses, thread-local '
+                  'counters until join, relaxed atomics for the work counters)'],
+     engine='E3', technique='runtime monitoring: genuine ThreadSanitizer (happens-before race detection) over real-thread '
+     'stress of the three supported patterns, reports collected from the TSan log',
+     level_text='Exploration. Real threads hammer tiny rings and queues and post fibre wake-ups/events while the main '
+     'thread schedules; the genuine ThreadSanitizer runtime builds happens-before from the memory-order argument of '
+     'every atomic executed and reports any conflicting plain access that is not ordered. Held on the executions '
+     'produced (millions of hand-offs per run), nothing more.',
+     level_note='TSan keeps a bounded access history and sees only interleavings the 16 cores produce, hence tiny '
+     'structures and repeated rounds. It does not explore weak-memory outcomes.')
